@@ -59,6 +59,15 @@ class Preempted(BaseException):
     pass
 
 
+class BatchFailure:
+    """what the consumer gets for a batch whose fetch raised in the worker when the loader is told to deliver errors: torch's
+    DataLoader re-raises the worker's exception for THAT batch and the iterator stays usable - a training loop that catches the
+    error and carries on receives the following batches from the same workers"""
+
+    def __init__(self, exc):
+        self.exc = exc
+
+
 class _WorkerTask:
     """one batch being fetched by one worker, in a thread of its own that only runs while it holds the baton; library
     function calls are pre-emption points (sys.settrace 'call' events of frames below the repository), the loader's
@@ -161,6 +170,7 @@ class SimDataLoader:
     start_method = "fork"  # "spawn": tensors reachable from the dataset are shared between the parent and all workers
     preempt = None  # dict(seed=..., rate=...): workers lose the CPU inside a batch, at library function calls
     switches = 0
+    deliver_errors = False  # True: a failed batch is delivered as a BatchFailure object and the iteration goes on
 
     def __init__(self, dataset, batch_size=1, shuffle=False, sampler=None, batch_sampler=None, num_workers=0,
                  collate_fn=None, pin_memory=False, drop_last=False, worker_init_fn=None, prefetch_factor=None,
@@ -195,7 +205,14 @@ class SimDataLoader:
             for idxs in it:
                 if trace is not None:
                     trace.append(["main", len(idxs)])
-                yield fetcher.fetch(idxs)
+                if cls.deliver_errors:
+                    try:
+                        res = fetcher.fetch(idxs)
+                    except Exception as e:  # noqa
+                        res = BatchFailure(e)
+                    yield res
+                else:
+                    yield fetcher.fetch(idxs)
             return
         self.workers = [SimWorker(self, w, base_seed, (cls.amb_seed * 1000003 + self.iterations * 1009 + w) & 0x7FFFFFFF)
                         for w in range(self.K)]
@@ -246,6 +263,9 @@ class SimDataLoader:
                             del running[pick]
                             cls.switches += task.switches
                             if task.exc is not None:
+                                if cls.deliver_errors and isinstance(task.exc, Exception):
+                                    done[bi] = BatchFailure(task.exc)
+                                    continue
                                 raise task.exc
                             done[bi] = task.result
                     out = done.pop(rcvd)
@@ -270,7 +290,13 @@ class SimDataLoader:
                 bi, idxs = queues[pick].pop(0)
                 if trace is not None:
                     trace.append([pick, bi])
-                done[bi] = self.workers[pick].run(idxs, cls.post_batch_probe)
+                if cls.deliver_errors:
+                    try:
+                        done[bi] = self.workers[pick].run(idxs, cls.post_batch_probe)
+                    except Exception as e:  # noqa
+                        done[bi] = BatchFailure(e)
+                else:
+                    done[bi] = self.workers[pick].run(idxs, cls.post_batch_probe)
             out = done.pop(rcvd)
             rcvd += 1
             put()
